@@ -224,3 +224,56 @@ def load(pkg, repo=None, log=None):
     data["_file"] = path
     data["_pkg"] = pkg
     return data
+
+
+PROBES = os.path.join(VERIF, "probes")
+PROBE_TARGET = os.path.join(CACHE, "probe_target")
+
+
+def probe_facts(name, dep_pkgs, repo=None, log=None):
+    """Compile /verif/probes/<name> (a user-style crate path-depending on /repo) through the
+    driver and return its facts (incl. the trait matrix). Cached by a hash of the probe source
+    and of the probed packages' sources."""
+    repo = repo or REPO
+    ensure_driver()
+    pdir = os.path.join(PROBES, name)
+    h = hashlib.sha256()
+    for root, _d, fs in os.walk(os.path.join(pdir, "src")):
+        for f in sorted(fs):
+            _hash_file(h, os.path.join(root, f))
+    _hash_file(h, os.path.join(pdir, "Cargo.toml"))
+    for p in dep_pkgs:
+        h.update(source_hash(p, repo).encode())
+    key = h.hexdigest()[:24]
+    os.makedirs(FACTS, exist_ok=True)
+    out = os.path.join(FACTS, f"{name}.{key}.json")
+    if not os.path.exists(out):
+        with Lock(os.path.join(CACHE, "lock")):
+            if not os.path.exists(out):
+                raw_dir = os.path.join(FACTS, "raw")
+                os.makedirs(raw_dir, exist_ok=True)
+                raw = os.path.join(raw_dir, name + ".json")
+                if os.path.exists(raw):
+                    os.remove(raw)
+                shutil.copy(os.path.join(repo, "Cargo.lock"), os.path.join(pdir, "Cargo.lock"))
+                for d in glob.glob(os.path.join(PROBE_TARGET, "debug", ".fingerprint", name + "-*")):
+                    shutil.rmtree(d, ignore_errors=True)
+                env = base_env()
+                env["RUSTC_WORKSPACE_WRAPPER"] = DRIVER
+                env["CARGO_TARGET_DIR"] = PROBE_TARGET
+                env["FACTGEN_OUT"] = raw_dir
+                env["FACTGEN_CRATES"] = name
+                t0 = time.time()
+                # the probe's path dependency must point at the repo under analysis
+                r = _run(["cargo", "+nightly", "check", "--offline", "--lib"] +
+                         (["--config", f"patch.crates-io.__none__.path='{repo}'"] if False else []), cwd=pdir, env=env)
+                if log:
+                    log(f"probe {name}: cargo check exit {r.returncode} in {time.time()-t0:.1f}s")
+                if r.returncode != 0 or not os.path.exists(raw):
+                    sys.stderr.write(r.stdout[-5000:])
+                    raise SystemExit(f"probe crate {name} failed to compile (fail closed)")
+                for old in glob.glob(os.path.join(FACTS, f"{name}.*.json")):
+                    os.remove(old)
+                os.replace(raw, out)
+    with open(out) as f:
+        return json.load(f)
